@@ -27,6 +27,18 @@ PROPS = {
         functions=['Core.SystemManager.__init__', 'Core.SystemManager.execute_systems', 'Core.System.__init__',
                    'Core.SystemManager.add_system', 'Core.SystemManager.remove_system', 'Core.Model.__init__', 'Core.Model.execute', 'Core.Model.execute#nonint', 'Core.Model.__getattr__'],
         assumptions=SCHED_ASSUME + ['frequency >= 1 for every registered system (property text)']),
+    'C05': dict(
+        level_text='Deductive proof of the scheduler loop under the *general* user-code contract: System.execute may '
+                   'register / remove any systems (modelled as havoc of queue and registry constrained by the op-sequence '
+                   'summary: representation invariant re-established, removed / added ghost sets only grow). Call-site '
+                   'monitors prove: no system runs twice, a system removed before its turn does not run, systems '
+                   'registered for the whole step run in priority / registration order; the loop invariant over the '
+                   'snapshot proves every due system that stayed registered ran exactly once.',
+        level_note='Assumes the op-sequence summary for user code (itself a consequence of the add_system / '
+                   'remove_system contracts proved under C01), engine semantics of list(...) and dict.get.',
+        functions=['Core.SystemManager.execute_systems#dynamic', 'Core.SystemManager.add_system',
+                   'Core.SystemManager.remove_system'],
+        assumptions=SCHED_ASSUME),
     'C06': dict(
         level_text='Deductive proof: a ghost monitor asserts the model is running at every sys.execute() call site; '
                    'a non-running model makes execute_systems return with nothing changed (or raise ModelCompleteError '
